@@ -2,12 +2,15 @@ package c01
 
 import (
 	"bytes"
+	"crypto/sha256"
 	"fmt"
 	"io"
 	"os"
 	"path/filepath"
+	"runtime/debug"
 	"sort"
 	"strings"
+	"sync"
 	"testing"
 
 	"github.com/zerx-lab/wordZero/pkg/document"
@@ -22,6 +25,9 @@ import (
 
 func TestMain(m *testing.M) {
 	document.SetGlobalLevel(document.LogLevelSilent)
+	// the histories allocate many short-lived documents; a larger heap target keeps the collector (and, on a busy
+	// machine, the wall time) down - the live heap of a case is a few MB
+	debug.SetGCPercent(400)
 	kit.TestMain(m, 2000, 30000)
 }
 
@@ -52,6 +58,10 @@ var tails = [][]string{
 	{"table", "cellimg", "tpldoc"}, {"listitem", "footnote", "reopen", "listitem"}, {"md", "header", "tpldoc"},
 	{"tplstr", "image", "reopen"}, {"headerpn", "reopen", "tpldoc"}, {"props", "reopen", "stats"},
 	{"image", "tpldoc2"}, {"image", "header", "tpldoc2", "image"}, {"table", "cellimg", "tpldoc2"}, {"imagefile", "tpldoc2", "reopen"},
+	// template data of other dynamic types than string (typed.go)
+	{"header", "ttpldoc"}, {"footerpn", "para", "ttpldoc"}, {"fheader", "ffooter", "ttpldoc2"}, {"headerpn", "footer", "ttpldoc", "reopen"}, {"para", "ttplstr"},
+	// two live documents edited alternately (widen.go)
+	{"tpldoc", "para", "swap", "image", "swap"}, {"reopen", "footnote", "swap", "footnote"}, {"image", "tpldoc2", "swap", "image", "swap", "image"},
 }
 
 func genCase(t *rapid.T) Case {
@@ -60,6 +70,7 @@ func genCase(t *rapid.T) Case {
 		return genForeignCase(t)
 	}
 	c := genCase0(t)
+	c.Ops = widen(t, c.Ops)
 	// calls that touch only some parts (read-only accessors, removers, ...) anywhere in the history
 	if rapid.IntRange(0, 2).Draw(t, "partial") == 0 {
 		n := rapid.IntRange(1, 3).Draw(t, "npartial")
@@ -70,8 +81,35 @@ func genCase(t *rapid.T) Case {
 		}
 	}
 	if rapid.IntRange(0, 3).Draw(t, "tail") == 0 {
-		for _, k := range rapid.SampledFrom(tails).Draw(t, "tailsel") {
-			c.Ops = append(c.Ops, cfg.OpOf(t, k))
+		tail := rapid.SampledFrom(tails).Draw(t, "tailsel")
+		typedTail := false
+		for _, k := range tail {
+			typedTail = typedTail || isTyped(k)
+		}
+		for _, k := range tail {
+			o := opOfKind(t, k)
+			if typedTail && hfKinds[k] && len(o.S) > 0 {
+				placeholderHF(t, &o)
+			}
+			c.Ops = append(c.Ops, o)
+		}
+	}
+	// header/footer placeholders filled with typed values (typed.go)
+	if rapid.IntRange(0, 7).Draw(t, "typed-hf") == 0 {
+		c.Ops = append(c.Ops, genTypedHF(t)...)
+	}
+	// counts past 9 / 10 / 16 / 32 / 64 of one thing
+	if rapid.IntRange(0, 15).Draw(t, "bulk") == 0 {
+		blk := genBulk(t)
+		at := rapid.IntRange(0, len(c.Ops)).Draw(t, "bulkat")
+		c.Ops = append(c.Ops[:at:at], append(blk, c.Ops[at:]...)...)
+	}
+	// the current document and an earlier one used alternately
+	if rapid.IntRange(0, 7).Draw(t, "swaps") == 0 {
+		n := rapid.IntRange(1, 3).Draw(t, "nswap")
+		for i := 0; i < n; i++ {
+			at := rapid.IntRange(0, len(c.Ops)).Draw(t, "swapat")
+			c.Ops = append(c.Ops[:at:at], append([]ops.Op{genSwap(t)}, c.Ops[at:]...)...)
 		}
 	}
 	return c
@@ -99,7 +137,7 @@ func CheckPackage(res *kit.Result, b []byte, where string) *opc.Package {
 		}
 		if pkg.IsXMLPart(name) {
 			// a UTF-8 byte order mark may precede an XML document (XML 1.0, 4.3.3); the checker judges what follows it
-			if err := xmlwf.Check(stripBOM(pkg.Parts[name])); err != nil {
+			if err := wellFormed(pkg.Parts[name]); err != nil {
 				res.Fail("C01.P2", "%s: part %q is not well-formed: %v", where, name, err)
 			}
 		}
@@ -146,7 +184,12 @@ func run(c Case) *kit.Result {
 	kinds := map[string]bool{}
 	hostile, special := false, false
 	var shape []string
-	okOps := 0
+	okOps, sameRun := 0, 0
+	// Every byte slice ToBytes returned stays with the caller (no copy is taken): it must still be the package it was
+	// when the later calls of the history - on this and on other documents - have happened. kept remembers the slices
+	// and a digest of what they held when they were judged; at the end a slice whose content differs is judged again.
+	var kept []heldBytes
+	hold := func(where string, b []byte) { kept = append(kept, heldBytes{where, b, digest(b)}) }
 	if c.Start != nil {
 		in := c.Start.Pkg.Bytes()
 		// precondition: the opened package is itself a well-formed package by this very oracle
@@ -209,15 +252,51 @@ func run(c Case) *kit.Result {
 		case "tplstr", "tpldoc", "tpldoc2", "md", "reopen":
 			special = true
 			res.Label("op:" + op.K)
+		case "ttplstr", "ttpldoc", "ttpldoc2":
+			special = true
+			for _, l := range typedLabels(op) {
+				res.Label(l)
+			}
+			if op.K != "ttplstr" {
+				if hit, tag := hfHit(x.Doc, op); hit {
+					res.Label("typed:header-footer-placeholder-gets-non-string-xml-hostile-value")
+					res.Label("typed-hf-hit:" + tag)
+				}
+			}
+		}
+		if op.Img != nil && isLibImageName(op.Img.Name) {
+			res.Label("img:library-generated-name")
+		}
+		if op.K == "table" && len(op.I) >= 2 && (op.I[0] >= 9 || op.I[1] >= 9) {
+			res.Label("table:9-or-more-rows-or-columns")
+		}
+		if i > 0 && c.Ops[i-1].K == op.K {
+			sameRun++
+		} else {
+			sameRun = 1
+		}
+		if sameRun == 10 {
+			res.Label("bulk:10-or-more-calls-of-one-kind")
+		}
+		if sameRun == 33 {
+			res.Label("bulk:33-or-more-calls-of-one-kind")
 		}
 		var err error
 		if ops.IsC01(op.K) {
 			res.Label("op:partial-touch")
 		}
 		p, st := kit.Try(func() {
-			if ops.IsC01(op.K) {
+			switch {
+			case op.K == "swap":
+				if doSwap(x, op) {
+					res.Label("op:swap-documents")
+					special = true
+				}
+			case isTyped(op.K):
+				err = doTyped(x, op)
+			case ops.IsC01(op.K):
 				err = x.DoC01(op)
-			} else {
+			default:
 				err = x.Do(op)
 			}
 		})
@@ -240,6 +319,7 @@ func run(c Case) *kit.Result {
 		shape = append(shape, op.K+":"+e+":"+strings.Join(op.Cls, ","))
 		for j, sv := range x.Saves {
 			CheckPackage(res, sv, fmt.Sprintf("intermediate save %d", j))
+			hold(fmt.Sprintf("the bytes ToBytes returned at op %d (save %d)", i, j), sv)
 		}
 		x.Saves = nil
 	}
@@ -257,6 +337,7 @@ func run(c Case) *kit.Result {
 	} else {
 		CheckPackage(res, b, "ToBytes")
 		res.Label("entry:ToBytes")
+		hold("the bytes ToBytes returned for the final document", b)
 	}
 	if c.SaveFile {
 		path := filepath.Join(dir, "out.docx")
@@ -301,6 +382,15 @@ func run(c Case) *kit.Result {
 		if serr == nil {
 			CheckPackage(res, sb, fmt.Sprintf("side document %d (saved at the end)", j))
 			res.Label("side-document-saved")
+			hold(fmt.Sprintf("the bytes ToBytes returned for side document %d", j), sb)
+		}
+	}
+	if len(kept) >= 2 {
+		res.Label("tobytes-result-held-across-later-tobytes")
+	}
+	for _, h := range kept {
+		if digest(h.b) != h.sum {
+			CheckPackage(res, h.b, h.where+", read again after the later calls of the history (its content is no longer what was returned)")
 		}
 	}
 	ks := make([]string, 0, len(kinds))
@@ -325,6 +415,49 @@ func run(c Case) *kit.Result {
 		res.Label("hostile-string")
 	}
 	return res
+}
+
+// wellFormed is xmlwf.Check with a memo: the verdict is a pure function of the bytes, and most parts of a case
+// (styles, the parts Save and ToBytes both write, the parts a rendered document shares with its template) recur.
+var (
+	wfMu    sync.Mutex
+	wfCache = map[[sha256.Size]byte]error{}
+)
+
+func wellFormed(part []byte) error {
+	k := sha256.Sum256(part)
+	wfMu.Lock()
+	e, ok := wfCache[k]
+	wfMu.Unlock()
+	if ok {
+		return e
+	}
+	// a UTF-8 byte order mark may precede an XML document (XML 1.0, 4.3.3); the checker judges what follows it
+	e = xmlwf.Check(stripBOM(part))
+	wfMu.Lock()
+	if len(wfCache) >= 4096 {
+		wfCache = map[[sha256.Size]byte]error{}
+	}
+	wfCache[k] = e
+	wfMu.Unlock()
+	return e
+}
+
+type heldBytes struct {
+	where string
+	b     []byte
+	sum   [sha256.Size]byte
+}
+
+func digest(b []byte) [sha256.Size]byte { return sha256.Sum256(b) }
+
+func isLibImageName(n string) bool {
+	for _, x := range libImageNames {
+		if x == n {
+			return true
+		}
+	}
+	return false
 }
 
 func diffParts(a, b *opc.Package) string {
@@ -357,12 +490,15 @@ func TestC01(t *testing.T) {
 	}
 	kit.Main(t, kit.Spec[Case]{
 		ID: "C01", Level: "exploration",
-		Rule: "history of 1-30 (thorough 1-60) generated API calls over the whole public API with strings from all classes; non-trivial = >=3 distinct op kinds and at least one of {hostile string class (control, XML meta, template look-alike, long), image with non-.png name, template op, markdown op, reopen}; a quarter of the histories START on a document opened from a package of another producer (internal/foreign) whose footnotes/endnotes/numbering/settings parts come in the shapes other producers write (self-closing / empty / white-space-only root, other prefix, default namespace, XML declaration variants or none, BOM, comments and PIs around the root) and continue with 1-5 calls biased to those that touch only some parts (read-only accessors, one note kind, list items, note config, removers, save/reopen/render as template): non-trivial there = at least one part in a non-library shape and at least one successful call; distinct = distinct sequence of (start shapes, op kind, outcome, string classes)",
+		Rule: "history of 1-30 (thorough 1-60) generated API calls over the whole public API with strings from all classes; non-trivial = >=3 distinct op kinds and at least one of {hostile string class (control, XML meta, template look-alike, long), image with non-.png name, template op, markdown op, reopen}; a quarter of the histories START on a document opened from a package of another producer (internal/foreign) whose footnotes/endnotes/numbering/settings parts come in the shapes other producers write (self-closing / empty / white-space-only root, other prefix, default namespace, XML declaration variants or none, BOM, comments and PIs around the root) and continue with 1-5 calls biased to those that touch only some parts (read-only accessors, one note kind, list items, note config, removers, save/reopen/render as template): non-trivial there = at least one part in a non-library shape and at least one successful call; distinct = distinct sequence of (start shapes, op kind, outcome, string classes). Widened corners (small probabilities): template data whose values are not plain strings (named string type, fmt.Stringer by value and by pointer, error, fmt.Formatter, []string, []interface{}, map, struct, template.HTML, []byte, ints/floats of several widths incl. zero, negative and large, bool, nil) handed over by SetVariable / SetVariables / FromStruct / Merge and rendered by TemplateEngine or by TemplateRenderer on a template file - half of them aimed at header/footer placeholders with text that cannot stand raw in XML; blocks of 10..65 calls of one kind (the 10th/11th/17th/33rd/65th image, note, list item, header call, style, table row/column ...); tables created with 9..65 rows or columns; image file names and argument strings equal to names the library generates itself (image10.png, header1.xml, Heading1, _Toc1, rId1 ...); 'swap' = the current document and one replaced earlier (template base, first render, the object before a reopen) are edited alternately. Every byte slice ToBytes returned is kept without copying and looked at again when the history is over",
 		Gen:  genCase, Run: run, Findings: findings,
 		Assumptions: []string{"well-formedness is decided by the harness's own checker (encoding/xml strict + raw-token pass + attribute scanner), not by a schema validator",
 			"image data given to AddImageFromData really is of the declared format",
+			"bytes returned by ToBytes belong to the caller: a slice whose content is no longer what was returned when the history ends is judged again by the same clauses (an unchanged slice keeps its verdict); the well-formedness verdict of a part is memoised by the SHA-256 of its bytes",
 			"a start package of another producer is judged by the same oracle before it is opened (a rejected one is excluded and counted); every part shape the generator can emit is proven well-formed by the checker before the search starts; a UTF-8 byte order mark before an XML document is legal and skipped before the part is judged"},
 		MustSee: map[string]float64{"img:ext-not-png": 0.1, "str:control": 0.2, "op:reopen": 0.1, "op:tpldoc": 0.1, "op:md": 0.1, "entry:Save": 0.3, "op:tpldoc2": 0.05, "side-document-saved": 0.3,
+			"op:typed-data": 0.1, "typed:header-footer-placeholder-gets-non-string-xml-hostile-value": 0.03, "tobytes-result-held-across-later-tobytes": 0.3,
+			"bulk:10-or-more-calls-of-one-kind": 0.02, "op:swap-documents": 0.02, "img:library-generated-name": 0.01,
 			"start:foreign": 0.15, "fp:selfclosing-root": 0.08, "fp:prefix:other": 0.04, "fp:prefix:default-ns": 0.04, "fp:bom": 0.03, "fp:decl:none": 0.03, "op:partial-touch": 0.2},
 	})
 }
